@@ -62,8 +62,20 @@ def run():
     stream("random", S.random_cases(ck, ck.n(1000, 8000) * mult))
 
     # Tie C: the back end's own functions, observed through the verif hooks on every compile above
-    allsrc = list(dict.fromkeys(H.REORDER_DIRECTED + srcs))
-    pairs = [(s, t) for s in allsrc for t in targets] + [(s, targets[0]) for s in dict.fromkeys(corr_srcs) if s not in set(allsrc)]
+    # thorough (and search mode, when the proof step is broken): every compile of every stream; quick: the directed programs,
+    # a third of the end-to-end programs (every sixth for the second target) and a twentieth of the exhaustive
+    # correspondence programs, whose pipelines differ in frame arguments only -- drawn with the run's seed
+    allsrc = list(dict.fromkeys(srcs))
+    corr_only = [s for s in dict.fromkeys(corr_srcs) if s not in set(allsrc)]
+    if ck.thorough or broken:
+        pairs = [(s, t) for s in allsrc for t in targets] + [(s, targets[0]) for s in corr_only]
+    else:
+        ck.rng.shuffle(allsrc)
+        ck.rng.shuffle(corr_only)
+        pairs = [(s, targets[0]) for s in allsrc[:len(allsrc) // 3]] + [(s, targets[1]) for s in allsrc[:len(allsrc) // 6]] \
+            + [(s, targets[0]) for s in corr_only[:len(corr_only) // 20]]
+    pairs = [(s, t) for s in H.REORDER_DIRECTED for t in targets] + pairs
+    ck.coverage["hook_streams_sampling"] = {"programs": len(allsrc), "correspondence_programs": len(corr_only), "logged_compiles": len(pairs), "all": bool(ck.thorough or broken)}
     ev, n_comp, n_ok = H.collect_all(pairs)
     H.run_reorder(ck, None, events=(ev["verif:preprocess "], n_comp, n_ok))
     H.run_split(ck, None, events=(ev["verif:split_off_back "], n_comp, n_ok))
@@ -82,7 +94,7 @@ def run():
     ]
     ck.finish(TRUSTED, "frame-corr = exhaustive: 12 functions x sorted/unsorted x grouped/ungrouped x {rows,range} x bounds {open,-2..2}^2 (incl. empty ranges: model WEmptyRange vs the compile error of both entry points) + rolling -1..3 + expanding + argument combinations (which argument wins, rejection before expanding/rolling, the spelling 0..-1, i64 edges), model (kind,start,end) vs RQ Compute.window and model clause text vs OVER (...) text; the same over a relation literal without rows, executed. "
               "scope-corr = 13 directed + random nestings (depth <= 4) of group / window / join-argument bodies: model scope_run (partition, frame per column) vs RQ Compute.window and vs the OVER text. "
-              "reorder-corr = every call of preprocess.rs reorder during the compiles of all streams + directed programs (hook verif:preprocess): Model/WinReorder.v reorder on the (kind, complexity) abstraction of the input vs the output the implementation returned, item by item. "
+              "hook streams: thorough tier = every compile of every stream; quick tier = 25 directed programs + a seeded sample (a third of the end-to-end programs, a twentieth of the correspondence programs), one logged compile each feeding all three. reorder-corr = every call of preprocess.rs reorder during those compiles (hook verif:preprocess): Model/WinReorder.v reorder on the (kind, complexity) abstraction of the input vs the output the implementation returned, item by item. "
               "split-corr = every call of anchor.rs split_off_back during the same compiles (hook verif:split_off_back): the number of transforms Model/WinAtomic.v walk keeps in the SELECT vs where the implementation stopped; a difference is a violation when a windowed column definition lies at or between the two stopping points, counted otherwise. "
               "lower-corr = per compile, the trace of the Lowerer's window field and of every new Compute (hook verif:lowerer_op) replayed by Model/WinLower.v lreplay; a column that needs a window and is handed none is judged against the specification (F51 when it is a sort key / partition column of its transform call). "
               "End-to-end streams (each case = program x instance x target): frames = partition {none,g} x 9 sort modes x every frame x 3 of the 12 functions per program (quick: every frame under the modes id and c, a sample elsewhere; thorough: all, 4 function triples); first-last = first/last under every frame class; "
